@@ -136,6 +136,15 @@ func c03Append(r *core.Run, worker int, p adapt.Parser, in *Input) {
 	}
 	w := in.Bytes[:in.BaseLen]
 	rw, ok := c03Parse(r, worker, p, w)
+	if ok && !rw.OK && len(in.Bytes) > len(w) {
+		// the converse direction (seed C03-w): w alone is refused, yet w++x is accepted and the parser consumes
+		// exactly w - acceptance of the structure then depends on the bytes that follow it
+		if res, ok2 := c03Parse(r, worker, p, in.Bytes); ok2 && res.OK && res.HasRem && len(in.Bytes)-len(res.Rem) == len(w) {
+			r.Traces.Add(1)
+			r.Violate(fmt.Sprintf("C03|%s|%s|trailing-bytes-change-acceptance", p.Name, in.Family), fmt.Sprintf("%s rejects w (%d bytes: %s) but accepts w++x (%d bytes appended) consuming exactly w (%s)", p.Name, len(w), rw.Err, len(in.Bytes)-len(w), in.Base), in.Case(p.Name))
+		}
+		return
+	}
 	if !ok || !rw.OK {
 		return
 	}
